@@ -347,7 +347,7 @@ def run(ctx: vlib.Ctx):
         "paths and providers from the environment) — only the Python oracle checks them against the live plugin environment; "
         "pydantic validation (a flag `valid` of the attach operation), schema export and provider lookup failures (flags of the environment)",
         "the Python oracle toclib.sync_oracle and the model's checker syncb_raw are cross-validated on every distinct real dump",
-        "not exhibited: copy/move into the source's own subtree, hard/soft links, two live containers on one file, failures inside "
+        "not exhibited: MOVE into the source's own subtree (copies below the source itself are generated), hard/soft links, two live containers on one file, failures inside "
         "HDF5 itself midway through an operation, copy on a file opened read-only (HDF5 attempts the write)",
     ]
     env = vlib.pmap(w_env, [None, None], procs=2)[0]
@@ -458,7 +458,8 @@ def run(ctx: vlib.Ctx):
     cov["input_distribution"] = {
         "histories": len(hists), "pattern_histories": len(T.pattern_histories()), "path_reuse_histories_random": n_reuse,
         "path_reuse_pattern_histories": len(T.reuse_patterns()),
-        "moves_or_copies_onto_a_previously_used_path": _count_reuse(hists), "ops_total": len(all_ops),
+        "moves_or_copies_onto_a_previously_used_path": _count_reuse(hists),
+        "copies_to_a_place_below_the_source_itself": sum(1 for op in all_ops if _self_copy(op)), "ops_total": len(all_ops),
         "op_kinds": _hist(op[0] for op in all_ops),
         "attach_schemas": _hist(op[2] for op in all_ops if op[0] == "sattach"),
         "attach_invalid_value": sum(1 for op in all_ops if op[0] == "sattach" and not op[4]),
@@ -475,7 +476,7 @@ def run(ctx: vlib.Ctx):
         ctx.sample({"case": ["check", "<env>", ck[-1][0][2], ck[-1][0][3], ck[-1][0][4][:8]], "model": ck_res[-1], "python_oracle_in_sync": ck[-1][1]})
     ctx.assumptions += [
         "one version per schema name and one providing package per schema in the environment",
-        "paths are ASCII and spelled canonically; no copy/move into the source's own subtree",
+        "paths are ASCII and spelled canonically; no move into the source's own subtree",
         "one container object at a time writes to a file",
     ]
     for k, v in sorted(notes.items()):
@@ -506,6 +507,18 @@ def run(ctx: vlib.Ctx):
                       found_input=False)
     elif disagreements:
         ctx.notes.append(f"{len(disagreements)} model/impl disagreements (first: {str(disagreements[0])[:600]})")
+
+
+def _self_copy(op) -> bool:
+    """copy / copyinto (spelled from "/") whose destination lies strictly below its own source."""
+    if op[0] == "copy" and op[1] == "/":
+        s, d = op[2].strip("/").split("/"), op[3].strip("/").split("/")
+    elif op[0] == "copyinto" and op[1] == "/":
+        s = op[2].strip("/").split("/")
+        d = op[3].strip("/").split("/") + (list(op[4]) if op[4] else s[-1:])
+    else:
+        return False
+    return len(d) > len(s) and d[:len(s)] == s
 
 
 def _count_reuse(hists) -> int:
